@@ -67,12 +67,32 @@ fn state_op(plan: &mut Plan, rng: &mut Rng, term: usize, t: i64, scale: f32) {
 fn cmd_op(plan: &mut Plan, rng: &mut Rng, term: usize, t: i64) {
     // "all finite values": now and then one whose image under a ratio leaves the f32 range (it is
     // relayed as +-inf)
-    let v = if rng.chance(0.03) {
+    let v = if rng.chance(0.01) {
+        // ... or a subnormal one
+        *rng.pick(&[1e-40f32, -3e-42, 1e-39, -1e-44])
+    } else if rng.chance(0.03) {
         *rng.pick(&[f32::MAX, -f32::MAX, 1e37, -3e38, 3e36])
     } else {
         rng.moderate_f32()
     };
     plan.push("SC", &[term as i64, t, rng.below(3) as i64, fb(v)]);
+}
+
+/// a tooth list of the given length; one in eight has a first or last entry that is not a whole number
+fn tooth_list(rng: &mut Rng, n: usize) -> Vec<u32> {
+    let mut t: Vec<u32> = (0..n).map(|_| rng.range(6, 60) as u32).collect();
+    if rng.chance(0.125) {
+        let k = if rng.chance(0.5) { 0 } else { n - 1 };
+        let whole = t[k] as f32;
+        let v = match rng.below(4) {
+            0 => whole + 0.5,
+            1 => f32::from_bits(whole.to_bits() - 1),
+            2 => whole + 0.25,
+            _ => whole * 1.5 + 0.125,
+        };
+        t[k] = v.to_bits();
+    }
+    t
 }
 
 fn ratio(rng: &mut Rng) -> f32 {
@@ -90,7 +110,7 @@ fn random_device(rng: &mut Rng, allow_diff: bool) -> DevSpec {
         2 | 3 => DevSpec::Gear(ratio(rng).to_bits()),
         4 => {
             let n = rng.range(2, 6) as usize;
-            DevSpec::GearTeeth((0..n).map(|_| rng.range(6, 60) as u32).collect())
+            DevSpec::GearTeeth(tooth_list(rng, n))
         }
         5 | 6 => DevSpec::Axle(rng.range(0, 6) as usize),
         _ => DevSpec::Diff(rng.below(5) as u8),
@@ -262,10 +282,17 @@ pub fn gen_c09(prop: &str, tier: Tier, rng: &mut Rng, seed: u64, run: u64) -> Pl
             9 => {
                 let t = st.next(rng);
                 let i = rng.below(n as u64) as usize;
-                plan.push(
-                    "SS",
-                    &[i as i64, t, fb((2.0f32).powi(i as i32) + rng.range(0, 3) as f32), fb(rng.range(-4, 4) as f32), fb(rng.range(-4, 4) as f32)],
-                );
+                // "all state values": a component is now and then an f32 that is not an ordinary number
+                let odd = |rng: &mut Rng, v: f32| -> f32 {
+                    if rng.chance(0.12) {
+                        *rng.pick(&[f32::NAN, f32::INFINITY, f32::NEG_INFINITY, -0.0, f32::MAX, -f32::MAX, 1e-42])
+                    } else {
+                        v
+                    }
+                };
+                let p0 = (2.0f32).powi(i as i32) + rng.range(0, 3) as f32;
+                let (v0, a0) = (rng.range(-4, 4) as f32, rng.range(-4, 4) as f32);
+                plan.push("SS", &[i as i64, t, fb(odd(rng, p0)), fb(odd(rng, v0)), fb(odd(rng, a0))]);
             }
             _ => {
                 // sometimes a command with a stamp that is already in use elsewhere (a tie: either
@@ -306,7 +333,7 @@ pub fn gen_c08(prop: &str, tier: Tier, rng: &mut Rng, seed: u64, run: u64) -> Pl
         1 => specs[0] = DevSpec::Axle((run / 8 % 7) as usize),
         2 => {
             let n = 2 + (run / 8 % 5) as usize;
-            specs[0] = DevSpec::GearTeeth((0..n).map(|_| rng.range(6, 60) as u32).collect());
+            specs[0] = DevSpec::GearTeeth(tooth_list(rng, n));
         }
         _ => {}
     }
@@ -437,7 +464,7 @@ pub fn gen_c13(prop: &str, tier: Tier, rng: &mut Rng, seed: u64, run: u64) -> Pl
             4 => DevSpec::Axle(rng.range(2, 6) as usize),
             _ => {
                 let n = rng.range(2, 6) as usize;
-                DevSpec::GearTeeth((0..n).map(|_| rng.range(6, 60) as u32).collect())
+                DevSpec::GearTeeth(tooth_list(rng, n))
             }
         });
     }
